@@ -124,7 +124,10 @@ def is_exec_kind(k):
 
 def stage_which(ctx, stats):
     rng = ctx.rng
-    n = 40 if ctx.quick() else 400
+    n = 80 if ctx.quick() else 600
+    # directed layouts first: every (env argument, os.environ PATH) combination with one executable in each of the three
+    # candidate locations, so that the answer tells which PATH was consulted
+    forced = [(e, o) for e in ('os', 'unset', 'emptydict', 'empty', 'set') for o in ('unset', 'empty', 'set')]
     lines, reals, descs = [], [], []
     root = tempfile.mkdtemp(prefix='verif_which_')
     saved_path = os.environ.get('PATH')
@@ -137,6 +140,8 @@ def stage_which(ctx, stats):
             groups = {}
             for g in ('env', 'os', 'def'):
                 kinds = [rng.choice(KINDS) for _ in range(rng.randrange(0, 4))]
+                if it < len(forced):
+                    kinds = ['exec']
                 dirs = []
                 for j, k in enumerate(kinds):
                     d = os.path.join(base, '%s%d' % (g, j)); os.mkdir(d)
@@ -151,8 +156,11 @@ def stage_which(ctx, stats):
                 fname = os.path.join(ed, 'prog')
             else:
                 fname = 'prog'
-            envmode = rng.choice(['os', 'unset', 'empty', 'set'])
+            envmode = rng.choice(['os', 'unset', 'emptydict', 'empty', 'set'])
             osmode = rng.choice(['unset', 'empty', 'set'])
+            if it < len(forced):
+                envmode, osmode = forced[it]
+                explicit = False; fname = 'prog'
             os.defpath = ':'.join(groups['def'][1])
             if osmode == 'unset':
                 os.environ.pop('PATH', None)
@@ -164,6 +172,8 @@ def stage_which(ctx, stats):
                 env = None
             elif envmode == 'unset':
                 env = {'HOME': '/'}
+            elif envmode == 'emptydict':
+                env = {}
             elif envmode == 'empty':
                 env = {'PATH': ''}
             else:
@@ -184,7 +194,7 @@ def stage_which(ctx, stats):
                             r = str(off + j)
             bits = lambda g: ','.join('1' if is_exec_kind(k) else '0' for k in groups[g][0]) or '-'
             lines.append('WH %d %d %s %s %s %s %s' % (1 if explicit else 0, 1 if (explicit and is_exec_kind(ekind)) else 0,
-                                                       envmode, osmode, bits('env'), bits('os'), bits('def')))
+                                                       'unset' if envmode == 'emptydict' else envmode, osmode, bits('env'), bits('os'), bits('def')))
             reals.append(r)
             descs.append(dict(explicit=explicit and ekind, env=envmode, os=osmode, layout={g: groups[g][0] for g in groups}))
     finally:
